@@ -65,6 +65,13 @@ func wireCheck(v interface{}, nm map[string]string) (bytes []byte, got *av.V, de
 	return bytes, got, dec, nil
 }
 
+var c02Inner = []interface{}{
+	&zoo.Scalars{I32: 70000, I64: 1 << 40, F64: 0.1, S: "inner", T: time.UnixMilli(1500000000123)},
+	mkString(4, 2100, 0, 0, 9),
+	mkBytes(4200, 9),
+	[]interface{}{&zoo.Inner{A: 1, S: "i"}, 2.5, int64(1) << 50, time.Unix(1600000000, 0)},
+}
+
 // gcWriter collects garbage between writes: whatever the encoder remembers about values
 // already written (addresses in its ref table) must stay valid across a collection.
 type gcWriter struct {
@@ -228,8 +235,10 @@ func TestC02(t *testing.T) {
 			err = gcCheck(v, copyNames(nm), b)
 			r.Label("gc-between-writes")
 		}
-		if err == nil && rapid.IntRange(0, 19).Draw(rt, "nested") == 0 {
-			err = nestedEncode(v, v, copyNames(nm), b)
+		if err == nil && len(b) < 3000 && rapid.IntRange(0, 19).Draw(rt, "nested") == 0 {
+			// the inner value takes the scalar, chunked-string, chunked-binary and object paths
+			inner := c02Inner[rapid.IntRange(0, len(c02Inner)-1).Draw(rt, "innerValue")]
+			err = nestedEncode(v, inner, copyNames(nm), b)
 			r.Label("another-encoder-between-writes")
 		}
 		r.Label("names:" + mode)
